@@ -20,6 +20,11 @@ ENGINES = {
     "cfg": dict(module="grpcgcp", pkg=".", pkgname="grpcgcp", pkgmarker="grpcgcp.", harness="grpcgcp",
                 files=["cfg_test.go", "poolsim_test.go"], instrument=GRPCGCP_INSTR_CLOCK,
                 kind="generated ApiConfig values / JSON texts: differential vs protojson, behavioural observation of the effective config, immutability snapshots"),
+    "stream": dict(module="grpcgcp", pkg=".", pkgname="grpcgcp", pkgmarker="grpcgcp.", harness="grpcgcp",
+                   files=["stream_test.go", "poolsim_test.go"], instrument=GRPCGCP_INSTR_CLOCK,
+                   kind="fake Streamer/ClientStream event log + gate-directed scenario programs, ordering monitor"),
+    "gme": dict(module="grpcgcp", pkg=".", pkgname="grpcgcp", pkgmarker="grpcgcp.", harness="grpcgcp",
+                files=["gme_test.go"], kind="GCPMultiEndpoint over real gRPC and in-process bufconn servers: routing observed at the servers vs model, dial log, ClientConn states, goroutine profile"),
 }
 
 POOLSIM_ESSENTIAL = {
@@ -115,6 +120,32 @@ PROPS["C17"] = dict(level="exploration",
                                     "C17.effective-config-wb", "C17.method-mapping", "C17.method-key-path", "C17.method-bind", "C17.watermark", "C17.max-size", "C17.gme-config-copy", "C17.gme-update"]},
                  timeout=dict(quick=900, thorough=7200))])
 
+PROPS["C12"] = dict(level="exploration",
+    rule="enumerated scenario programs (receiver first or not x creation ok/err/err-then-ok x cancel point x bystander call and point x sends x receives x late receive; plus 'no SendMsg ever') each run with gates holding the streamer inside creation, repeated per tier; seeded unary interceptor calls; non-trivial = a creation was gated, a receive was observed parked before the first send, a bystander call ran before the first send, or a unary call was checked; distinct = scenario text",
+    assumptions=["the fake streamer fails with the context's error when the call's context has ended, as grpc.NewStream does",
+                 "blocking is decided from goroutine states (sync.Cond.Wait / sync.Mutex.Lock) sampled by the harness"],
+    stages=[dict(name="stream", engine="stream", test="TestVerifStream", batches=dict(quick=8, thorough=16),
+                 essential={"C12": ["C12.not-created-at-construction", "C12.creation-gated", "C12.recv-before-send", "C12.recv-waits-during-creation", "C12.recv-released",
+                                    "C12.first-message-visible", "C12.sends-in-order", "C12.recv-delegated", "C12.recv-gets-creation-error", "C12.late-recv-reaches-stream",
+                                    "C12.recv-returns-on-context-end", "C12.bystander:before-send", "C12.bystander-delegates", "C12.unary-transparent"]},
+                 timeout=dict(quick=900, thorough=7200))])
+
+GME_ASSUME = ["real gRPC 1.56 client stack over in-process bufconn listeners; outage = dialer refuses + server stopped; reconnect backoff 5-20ms",
+              "bounded time is restated: once every pool's GetState() has matched the injected up/down pattern for 100ms, routing must match the model within 10s; pools that never settle make the step inconclusive",
+              "the 'reflects connectivity when the call returns' rule is evaluated only if no outage/recovery was injected since the last successful settle"]
+PROPS["C15"] = dict(level="exploration",
+    rule="seeded walks of 20 ops (valid reconfigurations of 1-3 named MultiEndpoints over 5 shared endpoints, endpoint outages/recoveries, settle+routed RPCs unary and streaming for no-name/known/unknown contexts); non-trivial = every walk (each performs routed RPC checks and pool-set checks); distinct = hash of the op log",
+    assumptions=GME_ASSUME,
+    stages=[dict(name="gme", engine="gme", test="TestVerifGME", batches=dict(quick=8, thorough=16), crash_props=["C15", "C16"],
+                 essential={"C15": ["C15.route", "C15.route:no-name", "C15.route:unknown-name", "C15.route:known", "C15.route-stream", "C15.pools", "C15.immediate", "C15.no-redial", "C15.outage", "C15.recovery"]},
+                 timeout=dict(quick=1200, thorough=7200))])
+PROPS["C16"] = dict(level="fault_enumeration",
+    rule="enumerated fault kinds {default missing, empty list for an existing ME, empty list for a new ME, dial failure at the 1st/2nd/3rd dial, valid} applied in seeded sequences of 1-4 updates on top of random legitimate changes (Go map order varies per repetition), and failed constructions {dial failure at dial 1/2, default missing, empty list}; non-trivial = every case (each ends with Close() and the leak check); distinct = hash of the op log incl. the dial order actually taken",
+    assumptions=GME_ASSUME + ["client-side goroutines are recognised by frames of monitoredConn.monitor, grpc.addrConn/ClientConn/ccBalancerWrapper/ccResolverWrapper, transport.http2Client"],
+    stages=[dict(name="gme", engine="gme", test="TestVerifGME", batches=dict(quick=8, thorough=16), crash_props=["C15", "C16"],
+                 essential={"C16": ["C16.rejected", "C16.routing-unchanged", "C16.update:default-missing", "C16.update:existing-empty", "C16.update:new-empty", "C16.update:dial-fail", "C16.failed-construction", "C16.close", "C16.no-goroutine-left"]},
+                 timeout=dict(quick=1200, thorough=7200))])
+
 NOT_APPLICABLE = {}
 
 _POOL_NOTE = ("Trusted: the harness's shadow of the contract, the fake ClientConn/SubConn (gRPC 1.56 calling discipline), the build-time "
@@ -159,3 +190,15 @@ MANIFEST_TEXT["C19"] = dict(technique="runtime monitoring: differential oracle (
 MANIFEST_TEXT["C17"] = dict(technique="runtime monitoring: differential oracle vs protojson, behavioural observation of the effective configuration, before/after snapshots of the caller's object",
     design_ref="DESIGN.md §5 C17", level_note="Trusted: protojson/proto.Equal as the definition of well-formed renderings, the fake ClientConn, white-box reads of gb.cfg/affinityMap as secondary checks. Held = held on the generated configurations.",
     level_text="Exploration: thousands of generated configurations per quick run; ParseConfig must accept exactly what protojson accepts with an equal result and round-trip; the pool must start with max(1,minSize) channels, tell the first call to wait exactly at watermark x channels, stop growing at maxSize; every listed-once method must behave per its command and key path and no other method may; a second config update and later mutations of the caller's object must change nothing; the caller's proto is compared before/after; GCPConfig() must be an equal, unaliased deep copy.")
+
+MANIFEST_TEXT["C12"] = dict(technique="runtime monitoring: ordering monitor over the event log of a fake Streamer/ClientStream, gate-directed schedules, goroutine-state observation",
+    design_ref="DESIGN.md §5 C12", level_note="Trusted: the fake streamer/stream and their sequence-numbered log, goroutine-state sampling. Held = held on the scenario programs run (all enumerated programs, repeated).",
+    level_text="Exploration (enumerated programs x repetitions): the streamer must not be invoked before the first SendMsg, must see that message and the caller's context values, must not be invoked again after a success; a RecvMsg issued before/during creation must be observed blocked until creation finished, then be delegated with the same argument or return the creation error, and must return when the context ends; successful sends reach the stream unchanged in order; Header/Trailer/Context/CloseSend must not panic before or after creation and are delegated afterwards; the unary interceptor is transparent.")
+
+_GME_NOTE = "Trusted: gRPC's bufconn transport and ClientConn.GetState, the model of MultiEndpoint (recovery 0 / delay 0), the goroutine-profile classification. Held = held on the walks/cases run; settle failures are counted as inconclusive."
+MANIFEST_TEXT["C15"] = dict(technique="runtime monitoring: routing observed at in-process servers vs model after settle; pool-set / dial-log / monitor-goroutine invariants after every update",
+    design_ref="DESIGN.md §3.4, §5 C15", level_note=_GME_NOTE,
+    level_text="Exploration: walks over the real gRPC stack; after each settle every context kind must be answered by the server the model names (unary and streaming through the interceptors); after each successful update exactly one open pool per mentioned endpoint, obsolete pools Shutdown, monitors == open pools, kept endpoints not re-dialled, new ones dialled once, and every MultiEndpoint routes at once per the kept pools' connectivity.")
+MANIFEST_TEXT["C16"] = dict(technique="runtime monitoring with fault injection: enumerated invalid updates / dial failures, before/after routing snapshots, ClientConn states, goroutine profile",
+    design_ref="DESIGN.md §5 C16", level_note=_GME_NOTE,
+    level_text="Fault enumeration: each invalidity kind and each dial-failure position, at construction and at update, repeated so that Go's map order varies; an error must be returned, the routing snapshot (every ME name, unknown name, no name) and the open pool set must be identical before/after a rejected update, no RPC may panic or hit a closed pool after any update, after Close() every dialled conn is Shutdown and no client-side goroutine remains; a failed construction leaves nothing behind.")
